@@ -72,11 +72,14 @@ PROPS = {
                     "every AnalysisCaps value and every size (so just below / at / just above each default cap are instances); "
                     "Resolver::emit_analysis_warnings is checked modularly against that contract: on Some(limit) exactly one "
                     "Warning-severity diagnostic, no error, optimization_plan == None, no analysis pass entered; "
-                    "Runtime::stmt_is_pruned/function_is_pruned are false without a plan."),
+                    "Runtime::stmt_is_pruned/function_is_pruned are false without a plan.  Discovery (Verus, unit count_walk: the body of "
+                    "count_function's explicit-stack loop with the real Stmt enum): visiting a statement pushes every statement nested directly "
+                    "in it (both branches of an if, loop bodies, blocks) and hands nested function definitions to count_function, so the sizes "
+                    "the limits are compared with leave no function out."),
         "not_covered": ("that an unpruned, warning-free run equals the run the program would have had otherwise is C03's statement; "
-                        "cfg::count_program's counts are taken as given (its own correctness is not verified); per-function "
+                        "the per-function block/op counts of CountFunctionBuilder (only the discovery walk is decided); per-function "
                         "vectors longer than 2 entries."),
-        "trusted_base": [KANI_TRUST, OS_TRUST],
+        "trusted_base": [KANI_TRUST, VERUS_TRUST, OS_TRUST],
     },
     "C15": {
         "level": "other",
